@@ -140,7 +140,7 @@ def future_drop(T, cap, send_side, stage, site="ABW_ENTRY", fin=0, nth=0):
     name = "d_%s_c%d_%s_st%d_%s_f%d_n%d" % (tname(T), cap, "sf" if send_side else "rf", stage, site, fin, nth)
     body = "future_drop::<%s>(%d, %s, %d, SITE_%s, %d, %d);" % (T, cap, "true" if send_side else "false", stage, site, fin, nth)
     return Inst(name.lower(), body, unwind=8,
-                note="%s future dropped at life stage %d (0 never polled,1 pending,2 claimed by split-phase peer finishing at %s with %s,3 completed unobserved,4 completed)" % (
+                note="%s future dropped at life stage %d (0 never polled,1 pending,2 claimed by split-phase peer finishing at %s with %s,3 completed unobserved,4 completed,5 as 2 with close() between claim and drop)" % (
                     "send" if send_side else "receive", stage, site, "terminate" if fin else "hand-off"))
 
 
@@ -156,6 +156,12 @@ def drop_matrix(types, caps, full):
             for fin in (0, 1):
                 for T in (types if full else [types[k % len(types)]]):
                     out.append(future_drop(T, 0, send_side, 2, site, fin, nth))
+                k += 1
+        # claimed by a peer, then the channel is closed from the other side, then dropped
+        for (site, nth) in [(x, 0) for x in ABW_SITES]:
+            for fin in (0, 1):
+                for T in (types if full else [types[k % len(types)]]):
+                    out.append(future_drop(T, 0, send_side, 5, site, fin, nth))
                 k += 1
     return out
 
@@ -575,6 +581,38 @@ REWAKE = [["asend_start0", "asend_poll0w1", "try_recv", "asend_poll0w1"],
 SMALLT = ["u8", "u32", "usize", "Pad", "TagS", "TagP", "TagL", "Big"]
 
 
+# ---- fourth wave ----
+RKINDS = ["try_recv", "try_recv_rt", "recv", "recv_timeout"]
+# two senders parked behind a full buffer; one receive of each kind must refill exactly one place
+REFILL3 = [["try_send", "asend_start0", "asend_start1", rk, "try_recv", "try_recv", "try_recv"] for rk in RKINDS] + [
+    ["try_send", "asend_start0", "asend_start1", "arecv_start0", "try_recv", "try_recv", "try_recv"],
+    ["try_send", "asend_start0", "asend_start1", "stream_start", "try_recv", "try_recv", "try_recv"]]
+# the head waiter replaces its waker while others wait behind it: it keeps its place
+REWAKE2 = [["asend_start0", "asend_start1", "asend_poll0w1", "try_recv", "try_recv", "asend_poll0w1", "asend_poll1w1"],
+           ["try_send", "asend_start0", "asend_start1", "asend_poll0w1", "drain", "asend_poll0w1", "asend_poll1w1"],
+           ["arecv_start0", "arecv_start1", "arecv_poll0w1", "try_send", "arecv_poll0w1", "arecv_poll1w1", "try_send"]]
+# every receive kind after the last sender went away with values still buffered; every send kind after the last receiver went
+DISCBUF = [["try_send", "try_send", "drop_s", rk, "try_recv", "try_recv"]
+           for rk in RKINDS + ["drain", "arecv_start0", "stream_start"]]
+SKINDS = ["send", "send_timeout", "send_opt_timeout", "try_send_opt", "try_send_rt", "try_send_opt_rt", "asend_start0"]
+DISCSEND = [["try_send", "drop_r", sk, "try_send"] for sk in SKINDS]
+# every kind of operation begun after close
+CLOSEDOPS = [["try_send", "close_s", rk, sk] for rk, sk in zip(RKINDS + ["drain", "arecv_start0", "stream_start"], SKINDS)]
+# drain with two parked senders (with and without a buffered value)
+DRAIN2 = [["asend_start0", "asend_start1", "drain", "asend_poll1w1", "asend_poll0w1", "drain"],
+          ["try_send", "asend_start0", "asend_start1", "drain", "asend_poll0w0", "asend_poll1w1", "try_recv"]]
+
+
+# every clone flavour (clone, clone_sync / clone_async, through as_async) after close and after the other side is gone:
+# eight clone functions in six sequences
+CLONEPACK_CLOSE = [["close_s", "clone_s1", "clone_s3", "clone_r1", "clone_r3", "try_send", "try_recv"],
+                   ["close_r", "clone_s0", "clone_s2", "clone_r0", "clone_r2", "close_s"]]
+CLONEPACK_DISC = [["try_send", "drop_s", "clone_r1", "clone_r3", "try_recv", "try_recv"],
+                  ["drop_s", "clone_r0", "clone_r2", "try_recv"],
+                  ["drop_r", "clone_s1", "clone_s3", "try_send"],
+                  ["try_send", "drop_r", "clone_s0", "clone_s2", "try_send_opt"]]
+
+
 def zd_handoffs():
     """zero-sized droppable payload on the direct hand-off paths (receiver waits first) and the buffer path"""
     return [blocked("ZD", 0, "RECV", ("PARK", 0, 0, 0), "SEND"), blocked("ZD", 0, "RECV_TO", ("WT_ENTRY", 0, 3, 1), "TRY_SEND_OPT"),
@@ -659,6 +697,7 @@ def _raw(prop, full):
         else:
             L += CL + zd_handoffs()
     elif prop == "C02":
+        L += seqs(REFILL3, DROPPY, [1]) + seqs(REWAKE2, DROPPY, [0, 1])
         L += seqs([RING1[5]], DROPPY, [1]) + seqs([QRING[1], QRING[4]], DROPPY, [2])
         L += seqs(cur("three", "timedq", "refill"), DROPPY, [0, 1])
         L += seqs(REFILL2, DROPPY, [2])
@@ -670,6 +709,7 @@ def _raw(prop, full):
         if not full:
             L = seqs(cur("three", "timedq"), DROPPY, [0]) + seqs(REFILL2[:4], DROPPY, [2]) + pick(L, 24)
     elif prop == "C03":
+        L += seqs([REFILL3[3], REWAKE2[0], DISCBUF[3], DRAIN2[1]], SEQT, [1])
         L += seqs(HALFCLOSE[:2] + [RING1[4], TRYPARK[2]], SEQT, [1]) + seqs([QRING[0], STALE2[1]], SEQT, [2])
         L += B(SEND_OUTERS, RECV_PEERS + KILL_FOR_SENDER + ["OBSERVE"], MIXED, [0, 1])
         L += B(RECV_OUTERS, SEND_PEERS + KILL_FOR_RECEIVER + ["OBSERVE"], MIXED, [0, 1])
@@ -693,6 +733,7 @@ def _raw(prop, full):
         else:
             L += SP + RW
     elif prop == "C05":
+        L += [i for i in poll_splits(DROPPY, full) if "_sf_diffw" in i.name and "_f1_" in i.name] + seqs(DISCSEND + CLOSEDOPS, DROPPY, [1])
         L += B(SEND_OUTERS, RECV_PEERS + KILL_FOR_SENDER, DROPPY, [0, 1])
         L += [timed_alone(T, c, o) for T in DROPPY for c in (0, 1) for o in ("SEND_TO", "SEND_OPT_TO")]
         A = async_matrix(DROPPY, [0, 1], full)
@@ -721,12 +762,13 @@ def _raw(prop, full):
     elif prop == "C07":
         L += split_matrix(MIXED, full)
         D = drop_matrix(MIXED, [0], full)
-        L += [i for i in D if "_st2_" in i.name]
+        L += [i for i in D if "_st2_" in i.name or "_st5_" in i.name]
         L += poll_splits(MIXED, full)
         L += [i for i in poll_sites(MIXED, full) if "poll_exists" in i.name or "register_waker" in i.name]
         if not full:
             L = pick(L, 34)
     elif prop == "C08":
+        L += seqs(REFILL3, DROPPY, [1, 2])
         L += seqs(STALE2, DROPPY, [2])
         L += seqs([["try_send", "try_send", "try_send", "try_recv", "try_send"],
                    ["try_send_opt", "try_send_rt", "send_timeout", "drain", "send"],
@@ -743,6 +785,7 @@ def _raw(prop, full):
         else:
             L += ZS + WW
     elif prop == "C09":
+        L += seqs(CLONEPACK_DISC, SEQT, [1])
         L += seqs([["try_send", "try_send", "convert_r", "convert_s", "drop_r", "drop_s"],
                    ["asend_start0", "convert_r", "recv", "asend_poll0w0"]], SEQT, [0, 2])
         L += B(["SEND", "SEND_TO"], ["ARECV"], MIXED, [0, 1])
@@ -759,6 +802,8 @@ def _raw(prop, full):
         else:
             L += CA
     elif prop == "C10":
+        L += seqs(CLONEPACK_CLOSE, DROPPY, [1])
+        L += seqs(CLOSEDOPS, DROPPY, [1, 2])
         L += seqs(HALFCLOSE, DROPPY, [0, 1]) + seqs([RING1[2], RING1[6]], DROPPY, [1]) + seqs([RING0[1], RING0[4]], DROPPY, [0])
         L += seqs([QRING[2]], DROPPY, [2])
         L += B(SEND_OUTERS, ["CLOSE_S", "CLOSE_R"], DROPPY, [0, 1])
@@ -776,6 +821,8 @@ def _raw(prop, full):
         else:
             L += CA
     elif prop == "C11":
+        L += seqs(CLONEPACK_DISC, DROPPY, [1, 2])
+        L += seqs(DISCBUF, DROPPY, [2, None]) + seqs(DISCSEND, DROPPY, [1])
         L += seqs(RING1[:2], DROPPY, [1]) + seqs([RING0[0], RING0[3]], DROPPY, [0]) + seqs([QRING[3]], DROPPY, [2])
         L += seqs(HALFCLOSE[:2], DROPPY, [1])
         L += B(SEND_OUTERS, ["DROP_R", "DROP_R_ASYNC"], DROPPY, [0, 1])
@@ -792,6 +839,7 @@ def _raw(prop, full):
         else:
             L += CA
     elif prop == "C12":
+        L += seqs(CLONEPACK_CLOSE + CLONEPACK_DISC, DROPPY, [1])
         L += seqs(HALFCLOSE, DROPPY, [0, 1])
         la = life_atoms()
         L += seqs([[a] for a in la], DROPPY, [1])
@@ -815,6 +863,7 @@ def _raw(prop, full):
         else:
             L += TQ
     elif prop == "C14":
+        L += seqs(DRAIN2, DROPPY, [0, 1])
         L += seqs(TRYPARK, DROPPY, [0, 1])
         L += rt_lockeds(DROPPY, full)
         L += seqs([["try_send", "try_send", "try_send_opt", "try_send_rt", "try_send_opt_rt"],
@@ -841,6 +890,7 @@ def _raw(prop, full):
         if not full:
             L = pick(L, 48)
     elif prop == "C16":
+        L += seqs(REWAKE2, DROPPY, [0, 1])
         L += seqs(REWAKE, SMALLT, [0, 1])
         L += [repoll_done("TagL", True), repoll_done("TagP", False)]
         L += [async_waiter(T, c, ss, p, rp) for (T, c, ss, p, rp) in [
@@ -860,6 +910,7 @@ def _raw(prop, full):
             L += seqs([s for s in all_sequences(2)], SEQT, [1])
             L += seqs(HALFCLOSE + TRYPARK + REWAKE, SEQT, [0, 1]) + seqs(RING1, SEQT, [1]) + seqs(RING0, SEQT, [0])
             L += seqs(QRING + STALE2, SEQT, [2])
+            L += seqs(REFILL3 + REWAKE2 + DISCSEND + CLOSEDOPS + DRAIN2 + CLONEPACK_CLOSE + CLONEPACK_DISC, SEQT, [1]) + seqs(DISCBUF, SEQT, [2])
         else:
             k = 0
             SQ = DROPPY + ["u32", "Big"]
@@ -873,6 +924,7 @@ def _raw(prop, full):
             L += seqs(clone_after()[::5], SQ, [1])
             L += seqs(REFILL2[:3], SQ, [2])
     elif prop == "C19":
+        L += seqs(DRAIN2, DROPPY, [0, 1])
         L += seqs([RING1[4]], DROPPY, [1]) + seqs([RING0[2]], DROPPY, [0]) + seqs([QRING[0], QRING[4]], DROPPY, [2])
         L += drain_states(DROPPY, full)
         L += B(["SEND", "SEND_TO", "SEND_OPT_TO"], ["DRAIN"], DROPPY, [0, 1])
@@ -921,37 +973,48 @@ MUST = {
     "C01": [r"_abw_sleep_.*_n1$", r"^[ab]_zd_", r"asend_start2__asend_drop0"],
     "C02": [r"asend_start2__asend_drop|arecv_start2__arecv_drop", r"__recv_timeout__try_send__arecv_poll", r"_c2_try_send__try_send__asend_start0__(try_recv|recv)__",
             r"asend_start1__send_timeout__try_recv",
-            r"rot_w3__asend_start0__asend_start1__asend_start2__asend_drop1", r"rot_q1__"],
+            r"rot_w3__asend_start0__asend_start1__asend_start2__asend_drop1", r"rot_q1__",
+            r"asend_start0__asend_start1__(try_recv|try_recv_rt|recv|recv_timeout|arecv_start0|stream_start)__try_recv__try_recv__try_recv", r"asend_start1__asend_poll0w1__|arecv_start1__arecv_poll0w1__"],
     "C03": [r"^w_.*_rs_(recv|try_recv|recv_to|arecv)_(try_send|observe)$", r"^w_.*_ss_(send|try_send)_",
             r"rot_w3__asend_start0__asend_start1__drain", r"drop_[rs]__close_[sr]"],
     "C04": [r"^u_ptr_", r"^s_(u32|big|pad)_recv_to_wt_entry_(park|wait_entry)",
             r"^q_(u8|u32|usize|pad)_.*asend_poll0w1__try_recv"],
-    "C05": [r"^d_.*_sf_st2_.*_f1_", r"__(close_r|drop_r)__asend_drop0", r"^b_zd", r"^s_.*send_opt_to_.*_(wait_entry|wait_precas|park)_f1_"],
+    "C05": [r"^d_.*_sf_st2_.*_f1_", r"__(close_r|drop_r)__asend_drop0", r"^b_zd", r"^s_.*send_opt_to_.*_(wait_entry|wait_precas|park)_f1_",
+            r"^pp_.*_sf_diffw_.*_f1_", r"try_send__drop_r__(send|send_timeout|send_opt_timeout|asend_start0)__try_send"],
     "C06": [r"^b_.*_c1_send.*_arecv$", r"^b_.*_send_.*_drop_r(_async)?$", r"__arecv_start0__asend_poll0w0", r"^b_.*_recv_.*_drop_s(_async)?$",
             r"rot_w\d__"],
-    "C07": [r"^d_(u32|big|pad)_c0_rf_st2_", r"_n1$", r"register_waker", r"poll_exists"],
+    "C07": [r"^d_(u32|big|pad)_c0_rf_st2_", r"_n1$", r"register_waker", r"poll_exists", r"_st5_"],
     "C08": [r"^q_(unit|za)_", r"^w_.*try_send$", r"send_timeout__try_recv",
-            r"__try_recv__(send_timeout__send_timeout|send_opt_timeout__send_opt_timeout|asend_start0__asend_start1)__"],
-    "C09": [r"drop_s__clone_r1__drop_r", r"drop_r__clone_s1__drop_s", r"_s0k\dp\d_arecv$", r"_s0k\dp\d_asend$",
+            r"__try_recv__(send_timeout__send_timeout|send_opt_timeout__send_opt_timeout|asend_start0__asend_start1)__",
+            r"_c1_try_send__asend_start0__asend_start1__(recv_timeout|recv|try_recv_rt)__", r"_c1_try_send__asend_start0__asend_start1__(try_recv|arecv_start0|stream_start)__"],
+    "C09": [r"drop_s__clone_r[01]__clone_r[23]", r"drop_r__clone_s[01]__clone_s[23]", r"_s0k\dp\d_arecv$", r"_s0k\dp\d_asend$",
             r"convert_r"],
-    "C10": [r"close_[sr]__clone_[sr][13]",
-            r"drop_[rs]__close_[sr]", r"rot_w\d__.*__close_[sr]__", r"rot_q1__try_send__try_send__close_s"],
-    "C11": [r"drop_s__clone_r[13]|drop_r__clone_s[13]", r"drop_[sr]_async",
-            r"rot_w\d__.*__drop_[sr]__", r"rot_q1__.*__drop_s"],
-    "C12": [r"drop_s__clone_r[0-3]|drop_r__clone_s[0-3]", r"close_[sr]__clone_[sr]3", r"drop_[sr]_async",
+    "C10": [r"close_[sr]__clone_s[01]__clone_s[23]__clone_r",
+            r"drop_[rs]__close_[sr]", r"rot_w\d__.*__close_[sr]__", r"rot_q1__try_send__try_send__close_s",
+            r"try_send__close_s__"],
+    "C11": [r"drop_s__clone_r[01]__clone_r[23]", r"drop_r__clone_s[01]__clone_s[23]", r"drop_[sr]_async",
+            r"rot_w\d__.*__drop_[sr]__", r"rot_q1__.*__drop_s",
+            r"try_send__try_send__drop_s__(recv_timeout|recv|try_recv_rt|drain)__", r"try_send__try_send__drop_s__(arecv_start0|stream_start|try_recv)__", r"try_send__drop_r__"],
+    "C12": [r"close_[sr]__clone_s[01]__clone_s[23]__clone_r", r"drop_s__clone_r[01]__clone_r[23]", r"drop_r__clone_s[01]__clone_s[23]", r"drop_[sr]_async",
             r"drop_[rs]__close_[sr]", r"convert_r"],
-    "C13": [r"recv_timeout__try_send__arecv_poll", r"asend_start1__send_timeout__try_recv", r"^s_.*_(send_opt_to|send_to|recv_to)_wt_entry_(park|wait_precas|timed_precancel)_f1", r"_nop$"],
+    "C13": [r"recv_timeout__try_send__arecv_poll", r"asend_start1__send_timeout__try_recv", r"^s_.*_(send_opt_to|send_to|recv_to)_wt_entry_(park|wait_precas|timed_precancel)_f1", r"_nop$",
+            r"_send_to_wt_exit_.*_(close_r|drop_r)$", r"_send_opt_to_wt_exit_.*_(close_r|drop_r)$", r"_recv_to_wt_exit_.*_(close_s|drop_s)$"],
     "C14": [r"^n_rt_",
-            r"asend_start0__try_send_(rt|opt_rt)__", r"asend_start0__try_send(_opt)?__try_recv", r"arecv_start0__(try_recv|try_recv_rt|drain)__try_send"],
+            r"asend_start0__try_send_(rt|opt_rt)__", r"asend_start0__try_send(_opt)?__try_recv", r"arecv_start0__(try_recv|try_recv_rt|drain)__try_send",
+            r"asend_start0__asend_start1__drain"],
     "C15": [r"^d_tag[spl]_c0_rf_st3", r"^d_tagp_c0_rf_st2_abw_entry_f0", r"^d_.*_sf_st2_.*f1_n[01]$", r"_c0_.*__(close_r|drop_r|close_s)__a(send|recv)_drop[01]",
             r"_c0_asend_start0__asend_start1__asend_start2__asend_drop0",
-            r"rot_w3__"],
+            r"rot_w3__",
+            r"_st5_.*_f0_", r"_st5_.*_f1_"],
     "C16": [r"^ps_.*_sf_register_waker_try_recv", r"^ps_.*_rf_register_waker_try_send", r"^pp_.*_diffw_abw_sleep_f0_n1", r"^pp_.*_diffw_abw_(entry|spin)_f[01]_n0", r"^st_.*_sp[12]", r"^p_done",
-            r"asend_poll0w1__try_recv"],
+            r"asend_poll0w1__try_recv",
+            r"asend_start1__asend_poll0w1__|arecv_start1__arecv_poll0w1__"],
     "C18": [r"_c2_try_send__try_send__asend_start0__try_recv__",
-            r"drop_[rs]__close_[sr]", r"rot_w3__arecv_start0__arecv_start1__drop_s", r"rot_q1__.*__try_recv__try_send", r"__try_recv__send_timeout__send_timeout__", r"asend_start0__try_send_rt__", r"_c1_convert_r$"],
+            r"drop_[rs]__close_[sr]", r"rot_w3__arecv_start0__arecv_start1__drop_s", r"rot_q1__.*__try_recv__try_send", r"__try_recv__send_timeout__send_timeout__", r"asend_start0__try_send_rt__", r"_c1_convert_r$",
+            r"_c1_try_send__asend_start0__asend_start1__recv_timeout__", r"try_send__try_send__drop_s__recv_timeout__", r"asend_start1__asend_poll0w1__try_recv", r"close_[sr]__clone_s[01]__clone_s[23]__clone_r"],
     "C19": [r"^n_drain_",
-            r"rot_w\d__asend_start0__asend_start1__drain", r"rot_q1__try_send__try_send__(drain|asend_start0)"],
+            r"rot_w\d__asend_start0__asend_start1__drain", r"rot_q1__try_send__try_send__(drain|asend_start0)",
+            r"asend_start0__asend_start1__drain__asend_poll1w1"],
 }
 
 
